@@ -71,6 +71,21 @@ def run(prop, tier, seed, replay=None):
             rng.shuffle(rec_scns)
             rec_scns = sorted(rec_scns[:220])
         scns += rec_scns
+        # the same machine over 4 (quick) / 5 (thorough) fields: several NON-ADJACENT fields wait in the cache at once and
+        # one is released while another keeps waiting (cannot happen with three fields)
+        cfgn = "MC_SerdeRecord4.cfg" if tier == "quick" else "MC_SerdeRecord5.cfg"
+        r = vf.tlc_mc(work, "MC_SerdeRecord.tla", cfgn, workers=4, timeout=1500)
+        if not r.ok:
+            raise vf.ToolError(f"MC_SerdeRecord ({cfgn}) invariant violated: {r.violated}")
+        rep.add_states(r.distinct, r.generated)
+        wide = sorted(set(r.tagged("SCN")))
+        if len(wide) < 100:
+            raise vf.ToolError(f"{cfgn} emitted too few histories (vacuous run)")
+        # histories in which a field is received while two non-adjacent earlier-received fields are still cached
+        rng.shuffle(wide)
+        wide = sorted(wide[:(260 if tier == "quick" else 3000)])
+        rep.cov["record_histories_with_4_or_5_fields"] = len(wide)
+        scns += wide
         # the block writer machine (small state machine: -coverage is fine here? it instantiates Enc/Parse: no)
         r = vf.tlc_mc(work, "MC_SerdeBlock.tla", "MC_SerdeBlock.cfg", workers=4, timeout=900)
         if not r.ok:
